@@ -8,5 +8,5 @@ git -C $wt checkout -q -- . && git -C $wt clean -fdq
 git -C $wt checkout -q --detach $(git -C /repo rev-parse HEAD) 2>/dev/null
 ( cd $wt && { git apply "$patch" 2>/dev/null || git apply --3way "$patch" >/dev/null 2>&1; } ) || exit 2
 mkdir -p /tmp/vout-$prop; cp /verif/known_findings.txt /tmp/vout-$prop/
-FIREFLY_REPO=$wt VERIF_ROOT=/tmp/vout-$prop /verif/bin/fireflycheck -property $prop -tier quick "$@" 2>&1 | grep -v "^C[0-9][0-9]\.R[0-9]*: " | cut -c1-700
+FIREFLY_REPO=$wt VERIF_ROOT=/tmp/vout-$prop ${FFC_BIN:-/verif/bin/fireflycheck} -property $prop -tier quick "$@" 2>&1 | grep -v "^C[0-9][0-9]\.R[0-9]*: " | cut -c1-700
 git -C $wt checkout -q -- . && git -C $wt clean -fdq
